@@ -27,7 +27,8 @@ def run(ctx, out):
     out.rule = ("single regular files: modes covering all 12 permission bits (thorough: all 4096), mtimes past/future/sub-second, "
                 "user xattr sets, uid/gid pairs (root), every combination of --no-perms/--no-timestamps/--ownership(/--fsync), "
                 "fresh and pre-existing destinations (other mode/owner/xattrs), both drivers, multi-block files with 4 workers "
-                "under random thread holds; non-trivial = mode with a set-id/sticky bit, or xattrs, or non-root ids, or a flag; "
+                "under random thread holds; plus trees of 8 files in which ONE best-effort xattr call is refused: every other file "
+                "keeps its exact metadata; non-trivial = mode with a set-id/sticky bit, or xattrs, or non-root ids, or a flag; "
                 "distinct = distinct case tuple")
     modes = MODES_CORE if quick else list(range(0, 0o10000))
     cases = []
@@ -149,6 +150,71 @@ def run(ctx, out):
         if first_meta is not None and any(kk == "data" and ee["x"] > fe[first_meta][1]["e"] for kk, ee in fe[first_meta:]):
             out.violation("metadata applied before the file's last write", rep)
         obs.append((rep, acts, [dstst.st_mode & 0o7777, dstst.st_uid, dstst.st_gid, dstst.st_mtime_ns], nt_))
+        shutil.rmtree(d, ignore_errors=True)
+    # ---- trees: what happened to ONE file's metadata says nothing about the next.  Eight files with distinct modes, mtimes,
+    #      user xattrs (and owners), both drivers, 1 / 4 workers; the supervisor refuses one best-effort call (an xattr call
+    #      of the first / third file it sees: EPERM, ENOSPC, EOPNOTSUPP, E2BIG) — only a warning for that file; every
+    #      OTHER file must arrive with its exact mode, sub-second mtime, every user xattr (and owner with --ownership)
+    ntree = 6 if quick else 60
+    for k in range(ntree):
+        d = os.path.join(d0, "t%d" % k)
+        os.makedirs(os.path.join(d, "src", "sub"))
+        metas = {}
+        for i in range(8):
+            rel = ("f%d" % i) if i % 3 else os.path.join("sub", "g%d" % i)
+            p = os.path.join(d, "src", rel)
+            fsutil.make_file(p, 100 + 3000 * i, [(0, 100 + 3000 * i)], tag=k * 8 + i + 1, sync=False)
+            xa = {"user.note%d" % i: b"v%d" % i * (i + 1), "user.common": b"c"}
+            for a, v in xa.items():
+                os.setxattr(p, a, v)
+            ids = rng.choice(IDS)
+            os.chown(p, *ids)
+            mode = rng.choice([0o644, 0o600, 0o2750, 0o4755, 0o640, 0o444])
+            os.chmod(p, mode)
+            mt = rng.choice(MTIMES) + i
+            os.utime(p, ns=(mt - 5, mt))
+            metas[rel] = (mode, mt, xa, ids)
+        driver = rng.choice(["parfile", "parblock"])
+        w = rng.choice([1, 4])
+        own = rng.random() < 0.4
+        what = rng.choice(["fsetxattr", "fsetxattr", "fgetxattr", "flistxattr", "none"])
+        errno = rng.choice([1, 28, 95, 7])
+        nth = rng.choice([1, 1, 3])
+        rules = [] if what == "none" else [("fail", errno, 0, what, nth, "*")]
+        argv = [ctx.bins["xcp"], "-r", "-T", "--driver", driver, "-w", str(w), "--reflink", "never"] + (["--ownership"] if own else []) + ["src", "dst"]
+        r = xcp.run_supervised(sup, argv, d, d, rules=rules, tag="t", umask=0o022, timeout_ms=60000)
+        hit = {e["p1"] for e in r.trace if e.get("inj")}
+        # the refused call names the source (get/list) or the destination (set) of ONE file: that file is exempt
+        exempt = {os.path.relpath(h, os.path.join(d, "src" if h.startswith(os.path.join(d, "src")) else "dst")) for h in hit}
+        out.case(("meta-tree", k, driver, w, own, what, errno, nth), True)
+        out.count("tree_refused_" + what)
+        rep = dict(argv=argv[1:], rules=rules, refused_for=sorted(exempt), exit=r.exit, stderr=r.stderr[-300:])
+        if r.exit != 0:
+            out.violation("tree copy failed (exit %d) although only a best-effort xattr call was refused" % r.exit, rep)
+        else:
+            for rel, (mode, mt, xa, ids) in metas.items():
+                if rel in exempt:
+                    continue
+                pd = os.path.join(d, "dst", rel)
+                try:
+                    st = os.stat(pd)
+                    dx = {a: os.getxattr(pd, a) for a in os.listxattr(pd)}
+                except OSError as ex:
+                    out.violation("%s missing after exit 0 (%s)" % (rel, ex), rep)
+                    break
+                why = None
+                if st.st_mode & 0o7777 != mode:
+                    why = "mode %o copied as %o" % (mode, st.st_mode & 0o7777)
+                elif st.st_mtime_ns != mt:
+                    why = "mtime %d copied as %d" % (mt, st.st_mtime_ns)
+                elif any(dx.get(a) != v for a, v in xa.items()):
+                    why = "xattrs %s not copied" % sorted(a for a, v in xa.items() if dx.get(a) != v)
+                elif own and (st.st_uid, st.st_gid) != ids:
+                    why = "owner %s copied as %s" % (ids, (st.st_uid, st.st_gid))
+                if why:
+                    out.violation("%s: %s — after an xattr call was refused for ANOTHER file (%s) of the same run"
+                                  % (rel, why, sorted(exempt) or "none"), rep)
+                    break
         shutil.rmtree(d, ignore_errors=True)
     if ctx.model_ok and minputs:
         res = core.run_model("run_finalise", minputs, shard=40, tag="c10")
